@@ -826,9 +826,14 @@ def must_error_cases(ctx, rng, n):
             recs = ixfr_stream(rng, chain)
             msgs = msgs_of(split(recs, rand_cuts(rng, len(recs))), IXFR)
             yield "wrong-base", mk_case(zk, rel, IXFR, other, 0, chain[0], msgs, MUSTERR, None)
-        elif r < 0.6:
+        elif r < 0.55:
             msgs = msgs_of([[soa_rec(chain[-1])]], IXFR)
             yield "use-tcp", mk_case(zk, rel, IXFR, s0, 1, chain[0], msgs, MUSTERR, None)
+        elif r < 0.6:
+            # UDP: the datagram holds only a proper prefix (>= 2 records) of the response
+            recs = ixfr_stream(rng, chain)
+            recs = recs[:rng.randint(2, len(recs) - 1)]
+            yield "udp-incomplete", mk_case(zk, rel, IXFR, s0, 1, chain[0], msgs_of([recs], IXFR), MUSTERR, None)
         elif r < 0.8:
             rdt = IXFR if rng.random() < 0.7 else AXFR
             recs = ixfr_stream(rng, chain) if (rdt == IXFR and rng.random() < 0.8) else axfr_stream(rng, chain[-1])
@@ -884,10 +889,10 @@ def malformed_cases(ctx, rng, n):
         z0 = gen_zone(rng, rng.choice([1, 5, 2 ** 32 - 1]), size=rng.choice([0, 2, 5]), ids=4)
         if rng.random() < 0.15:
             z0 = {}
-        rdt = rng.choice([IXFR, IXFR, AXFR, 1])
+        rdt = rng.choice([IXFR, IXFR, IXFR, IXFR, AXFR, AXFR, AXFR, 1])
         s0 = (soa_id(z0) & 0xFFFFFFFF) if z0 else 5
-        ser = rng.choice([s0, s0, s0, None, 0, 7])
-        udp = rng.random() < 0.2
+        ser = rng.choice([s0, s0, s0, s0, 0, 7]) if rdt == IXFR and rng.random() < 0.95 else rng.choice([None, s0])
+        udp = rng.random() < 0.2 and rdt == IXFR
         soas = [[0, rng.choice([IN, IN, IN, CH]), SOA, 0, rng.choice([300, 3600]), (rng.randrange(2) << 32) | rng.choice([s0, s0, 6, 7, (s0 + 1) % T32])]
                 for _ in range(3)]
         recs = []
@@ -925,7 +930,7 @@ def malformed_cases(ctx, rng, n):
 def exhaustive_cases(ctx, rng):
     """small scope, swept completely: every chunking of short streams; every fault at every position"""
     small = dict(size=ctx.n(1, 2), names=[0, 1], ids=3, nops=2)
-    nchains = ctx.n(2, 10)
+    nchains = ctx.n(2, 6)
     total = 0
     for ci in range(nchains):
         chain = gen_chain(rng, rng.choice([1, 2]), **small)
@@ -1024,11 +1029,11 @@ def cases(ctx):
     rng = ctx.rng
     yield from misc_cases(ctx, rng)
     yield from exhaustive_cases(ctx, rng)
-    yield from valid_cases(ctx, rng, ctx.n(500, 8000))
-    yield from must_error_cases(ctx, rng, ctx.n(250, 4000))
-    yield from fault_cases(ctx, rng, ctx.n(500, 8000))
-    yield from malformed_cases(ctx, rng, ctx.n(400, 8000))
-    yield from feed_cases(ctx, rng, ctx.n(200, 3000))
+    yield from valid_cases(ctx, rng, ctx.n(500, 4500))
+    yield from must_error_cases(ctx, rng, ctx.n(250, 2500))
+    yield from fault_cases(ctx, rng, ctx.n(500, 4500))
+    yield from malformed_cases(ctx, rng, ctx.n(400, 4500))
+    yield from feed_cases(ctx, rng, ctx.n(200, 2000))
 
 
 # ------------------------------------------------------------------ oracle
